@@ -1277,3 +1277,63 @@ func nilCmpOf(v ssa.Value) (x ssa.Value, isEq bool, ok bool) {
 	}
 	return nil, false, false
 }
+
+// nonEmptyTest: v tests whether the string (or slice) satisfying isS is non-empty, in any spelling: `s != ""`,
+// `"" == s`, `len(s) > 0`, `len(s) != 0`, `0 < len(s)`, `len(s) >= 1`, ...; sense: v true means non-empty.
+func nonEmptyTest(v ssa.Value, isS func(ssa.Value) bool) (is bool, sense bool) {
+	b, ok := v.(*ssa.BinOp)
+	if !ok {
+		return false, false
+	}
+	isEmptyStr := func(x ssa.Value) bool { s, ok := constString(x); return ok && s == "" }
+	if b.Op == token.EQL || b.Op == token.NEQ {
+		if (isS(b.X) && isEmptyStr(b.Y)) || (isS(b.Y) && isEmptyStr(b.X)) {
+			return true, b.Op == token.NEQ
+		}
+	}
+	isLen := func(x ssa.Value) bool {
+		call, ok := x.(*ssa.Call)
+		return ok && calleeKey(call) == "builtin.len" && len(call.Call.Args) == 1 && isS(call.Call.Args[0])
+	}
+	op := b.Op
+	var k int64
+	var okK bool
+	switch {
+	case isLen(b.X):
+		k, okK = constInt(b.Y)
+	case isLen(b.Y):
+		k, okK = constInt(b.X)
+		if fl, ok := map[token.Token]token.Token{token.LSS: token.GTR, token.GTR: token.LSS, token.LEQ: token.GEQ, token.GEQ: token.LEQ, token.EQL: token.EQL, token.NEQ: token.NEQ}[op]; ok {
+			op = fl
+		} else {
+			okK = false
+		}
+	}
+	if !okK {
+		return false, false
+	}
+	cmp := func(a int64) (bool, bool) {
+		switch op {
+		case token.EQL:
+			return a == k, true
+		case token.NEQ:
+			return a != k, true
+		case token.LSS:
+			return a < k, true
+		case token.LEQ:
+			return a <= k, true
+		case token.GTR:
+			return a > k, true
+		case token.GEQ:
+			return a >= k, true
+		}
+		return false, false
+	}
+	z, ok0 := cmp(0)
+	o, ok1 := cmp(1)
+	big, _ := cmp(1 << 40)
+	if !ok0 || !ok1 || o != big || z == o {
+		return false, false
+	}
+	return true, o
+}
